@@ -4,6 +4,7 @@ import (
 	"bytes"
 	"fmt"
 
+	"github.com/syndtr/goleveldb/leveldb/opt"
 	"github.com/syndtr/goleveldb/leveldb/storage"
 	"verif/harness/simdisk"
 )
@@ -692,6 +693,25 @@ func GenCase(prop string, seed uint64, thorough bool) *Case {
 			}
 		}
 		c.Sched.PoolDropP = 0
+	}
+	if prop == "C16" && r.p(0.08) {
+		// a damaged filter block must be ignored or reported, never believed:
+		// block checksums are switched off for data blocks (Strict without
+		// StrictBlockChecksum), filter blocks are altered at rest, and every
+		// stored key must still be found
+		c.Knobs.Strict = uint(opt.StrictJournalChecksum)
+		at := len(ops) / 2
+		rot := Op{K: "rot", Via: "filter", Slot: r.rng(1, 4), Ms: int(r.u64() % 1000000)}
+		ops = append(ops[:at:at], append([]Op{rot}, ops[at:]...)...)
+		for i := range ops {
+			if ops[i].Knob != nil {
+				ops[i].Knob.Strict = c.Knobs.Strict
+			}
+		}
+		for _, k := range g.keys {
+			ops = append(ops, Op{K: []string{"get", "has"}[r.intn(2)], Key: B(k)})
+		}
+		c.Rot = true
 	}
 	if prop == "C16" {
 		// change the filter policy across reopens, with and without AltFilters
